@@ -360,42 +360,46 @@ def run(ctx):
         ctx.report("C17-same-path", "eval_file/bypasses-eval", "eval_file %s: the file is not run by the code path that "
                    "evaluates the same text in-process" % ("evaluates forms without going through Interpreter::eval" if bypass
                                                            else "never reaches Interpreter::eval"), where_of(efn))
+    d_ef = maintables.rule_eval_file(ctx, "C17-same-path")
+    if bypass or not through or d_ef >= 3:
+        pass
     elif len(fcs) != 1 or len(evc) != 1:
         ctx.note("eval_file reaches eval through a helper; the stream/program-directory sub-rules apply to the direct shape only")
     else:
-        p = Prov(efn)
-        roots = {n for _, n in p.call_roots(0)}
-        if not any(r.endswith("Interpreter::eval") for r in roots):
-            ctx.report("C17-same-path", "eval_file/return", "eval_file does not return eval's result", where_of(efn))
-        # stream argument of eval derives from file_char_stream
-        sroots = {n for _, n in p.call_roots(evc[0][1]["args"][1])}
-        ctx.inst("C17-same-path", "eval_file/stream", {"roots": sorted(sroots)})
-        if not any(r.endswith("file_char_stream") for r in sroots):
-            ctx.report("C17-same-path", "eval_file/stream", "eval is not fed from file_char_stream", where_of(efn, evc[0][1]))
-        # failure of file_char_stream is propagated: Break arm reaches from_residual -> return
-        sw = None
-        for b2, t2 in efn.calls():
-            if callee_matches(t2, "std::ops::Try::branch") and ("call", fcs[0][0], callee(fcs[0][1])) in p.op_roots(t2["args"][0]):
-                sw = mir.result_switch_after(efn, b2)
-        if not sw:
-            ctx.report("C17-same-path", "eval_file/open-error", "the result of file_char_stream is not propagated with `?`",
-                       where_of(efn, fcs[0][1]))
-        else:
-            brk = sw[1].get(1, sw[2])
-            if any(callee_matches(t3, "Interpreter::eval") for _, t3 in efn.calls(efn.reachable(brk))):
-                ctx.report("C17-same-path", "eval_file/open-error", "evaluation continues after a failed open",
-                           where_of(efn, fcs[0][1]))
-        # program_directory written before eval
-        writes = []
-        for b2, i2, s2 in efn.stmts():
-            if s2["k"] == "assign" and any(e.get("name") == "program_directory" for e in s2["place"]["proj"]) \
-                    and not efn.blocks[b2]["cleanup"]:
-                writes.append(b2)
-        ctx.inst("C17-same-path", "eval_file/program_directory", {"write_blocks": writes})
-        dom = efn.dominators()
-        if not writes or not any(w in dom[evc[0][0]] for w in writes):
-            ctx.report("C17-same-path", "eval_file/program-directory", "program_directory is not assigned on every "
-                       "path before eval", where_of(efn))
+      with ctx.fallback():
+          p = Prov(efn)
+          roots = {n for _, n in p.call_roots(0)}
+          if not any(r.endswith("Interpreter::eval") for r in roots):
+              ctx.report("C17-same-path", "eval_file/return", "eval_file does not return eval's result", where_of(efn))
+          # stream argument of eval derives from file_char_stream
+          sroots = {n for _, n in p.call_roots(evc[0][1]["args"][1])}
+          ctx.inst("C17-same-path", "eval_file/stream", {"roots": sorted(sroots)})
+          if not any(r.endswith("file_char_stream") for r in sroots):
+              ctx.report("C17-same-path", "eval_file/stream", "eval is not fed from file_char_stream", where_of(efn, evc[0][1]))
+          # failure of file_char_stream is propagated: Break arm reaches from_residual -> return
+          sw = None
+          for b2, t2 in efn.calls():
+              if callee_matches(t2, "std::ops::Try::branch") and ("call", fcs[0][0], callee(fcs[0][1])) in p.op_roots(t2["args"][0]):
+                  sw = mir.result_switch_after(efn, b2)
+          if not sw:
+              ctx.report("C17-same-path", "eval_file/open-error", "the result of file_char_stream is not propagated with `?`",
+                         where_of(efn, fcs[0][1]))
+          else:
+              brk = sw[1].get(1, sw[2])
+              if any(callee_matches(t3, "Interpreter::eval") for _, t3 in efn.calls(efn.reachable(brk))):
+                  ctx.report("C17-same-path", "eval_file/open-error", "evaluation continues after a failed open",
+                             where_of(efn, fcs[0][1]))
+          # program_directory written before eval
+          writes = []
+          for b2, i2, s2 in efn.stmts():
+              if s2["k"] == "assign" and any(e.get("name") == "program_directory" for e in s2["place"]["proj"]) \
+                      and not efn.blocks[b2]["cleanup"]:
+                  writes.append(b2)
+          ctx.inst("C17-same-path", "eval_file/program_directory", {"write_blocks": writes})
+          dom = efn.dominators()
+          if not writes or not any(w in dom[evc[0][0]] for w in writes):
+              ctx.report("C17-same-path", "eval_file/program-directory", "program_directory is not assigned on every "
+                         "path before eval", where_of(efn))
     return EXPLANATION, NOT_DECIDED
 
 
